@@ -2,7 +2,7 @@
 # usage: tools/seedtest.sh <seed-dir> <Cxx> [confirm]   -- seed-dir has patch.diff, run.sh
 # applies the patch in a scratch worktree of /repo HEAD; optionally confirms the demo (passes
 # without, fails with); runs the check against the patched tree; cleans up.
-D=$1; P=$2; CONF=$3
+D=$(cd "$1" && pwd); P=$2; CONF=$3
 WT=/tmp/wt-seed-$$
 git -C /repo worktree add -q --detach $WT HEAD || exit 2
 if [ -n "$CONF" ]; then
